@@ -217,29 +217,37 @@ func (c *Client) messageHandler(msg protocol.Message) error {
 }
 
 func (c *Client) handleBlockAnnouncement(msg protocol.Message) {
+	// Handlers run inside the receive loop: DoneChan cannot close while one
+	// of them waits, ShutdownChan can (the notification loop may be gone)
 	select {
-	case <-c.DoneChan():
+	case <-c.ShutdownChan():
 	case c.notificationChan <- msg:
 	}
 }
 
 func (c *Client) handleBlockOffer(msg protocol.Message) {
+	// Handlers run inside the receive loop: DoneChan cannot close while one
+	// of them waits, ShutdownChan can (the notification loop may be gone)
 	select {
-	case <-c.DoneChan():
+	case <-c.ShutdownChan():
 	case c.notificationChan <- msg:
 	}
 }
 
 func (c *Client) handleBlockTxsOffer(msg protocol.Message) {
+	// Handlers run inside the receive loop: DoneChan cannot close while one
+	// of them waits, ShutdownChan can (the notification loop may be gone)
 	select {
-	case <-c.DoneChan():
+	case <-c.ShutdownChan():
 	case c.notificationChan <- msg:
 	}
 }
 
 func (c *Client) handleVotesOffer(msg protocol.Message) {
+	// Handlers run inside the receive loop: DoneChan cannot close while one
+	// of them waits, ShutdownChan can (the notification loop may be gone)
 	select {
-	case <-c.DoneChan():
+	case <-c.ShutdownChan():
 	case c.notificationChan <- msg:
 	}
 }
